@@ -263,14 +263,38 @@ def _collected(func, name):
 
 def _index_iter(it, tgt):
     """(table name, index var, element var) of `for i in range(len(T))` / `for i, e in enumerate(T)` / `for e in T`"""
-    if _is_call(it, name='range', nargs=1) and _is_call(it.args[0], name='len', nargs=1) and isinstance(it.args[0].args[0], ast.Name) \
-            and isinstance(tgt, ast.Name):
-        return it.args[0].args[0].id, tgt.id, None
+    if _is_call(it, name='range') and not it.keywords and 1 <= len(it.args) <= 3 and isinstance(tgt, ast.Name):
+        tabs = {n.args[0].id for a in it.args for n in ast.walk(a) if _is_call(n, name='len', nargs=1) and isinstance(n.args[0], ast.Name)}
+        if len(tabs) == 1:
+            return tabs.pop(), tgt.id, None      # whether the range covers the whole table is judged by _range_gap
     if _is_call(it, name='enumerate', nargs=1) and isinstance(it.args[0], ast.Name) and isinstance(tgt, ast.Tuple) and len(tgt.elts) == 2 \
             and all(isinstance(x, ast.Name) for x in tgt.elts):
         return it.args[0].id, tgt.elts[0].id, tgt.elts[1].id
     if isinstance(it, ast.Name) and isinstance(tgt, ast.Name):
         return it.id, None, tgt.id
+    return None
+
+
+def _range_gap(it):
+    """for `range(...)` over len(T): evaluate the bounds against table sizes 1, 2, 3, 6 and return a description of the
+    indices of T that are not produced / produced outside T (None when the range is exactly 0 .. len(T)-1 or `it` is no range)"""
+    if not (_is_call(it, name='range') and not it.keywords and 1 <= len(it.args) <= 3):
+        return None
+    for n_ in (1, 2, 3, 6):
+        try:
+            args = [Evaluator({}, arith=True, funcs={'len': lambda t: n_}, leaf=lambda e: 'T' if isinstance(e, ast.Name) else NotImplemented).ev(a)
+                    for a in it.args]
+            got = list(range(*args))
+        except AnalysisError:
+            raise
+        except Exception as ex:
+            raise AnalysisError(f"range bounds outside the arithmetic domain: {norm(it)}: {ex}")
+        want = list(range(n_))
+        if sorted(got) != want:
+            miss = [i for i in want if i not in got]
+            extra = [i for i in got if i not in want]
+            return (f"with {n_} entries `{norm(it)}` yields {got}" + (f", missing index {miss}" if miss else '') +
+                    (f", stray index {extra}" if extra else ''))
     return None
 
 
@@ -651,7 +675,7 @@ def rule_tick_order(repo):
     else:
         r.bad(om, 'OpenLoopCLPass.schedule_with_top_level_callee', f"schedule built from {lst}",
               "the update schedule does not precede the clock-edge list in the open-loop schedule: dumps sample unsettled values", of.lineno)
-    r.require_floor(5)
+    r.require_floor(6)
     return r
 
 
@@ -759,6 +783,8 @@ def _net_loop(v):
     lp = loops[0]
     it, tgt, idx = lp.iter, lp.target, None
     ii = _index_iter(it, tgt)
+    if ii is not None and _range_gap(it) is not None:
+        raise AnalysisError(f"{v.dump.name}: the value loop does not run over the whole table: {_range_gap(it)}")
     if ii is not None and ii[1] is not None and ii[2] is None:
         # for i in range(len(T)): sig, sym = T[i]
         un = [s for s in lp.body if isinstance(s, ast.Assign) and len(s.targets) == 1 and isinstance(s.targets[0], ast.Tuple)
@@ -929,6 +955,7 @@ def _pairs_table(v, name, at):
             and norm(e_sym) == tg.elts[1].id
     else:
         raise AnalysisError(f"make_vcd_func: source of {name} outside the understood shapes: {norm(it)}")
+    v.table_gap = _range_gap(it)
     return (c.loop or c.node), nets, syms, ivar, c.conj, ok_pair
 
 
@@ -1064,6 +1091,9 @@ def rule_compress(repo):
                 "net i: values are printed under another net's symbol", val):
         return _fin(r)
     v.nets, v.syms = nets, syms
+    _chk(r, v.table_gap is None, m, v.q, f"{table} runs over every index of {nets}",
+         f"the per-cycle table does not run over all of {nets} ({v.table_gap}): a net that is declared with $var and given an initial value "
+         f"is never polled, its signals keep the initial value in the waveform forever", val)
     clock_sym = [n for n in _own_nodes(v.mk) if isinstance(n, ast.Assign) and len(n.targets) == 1 and isinstance(n.targets[0], ast.Name)
                  and isinstance(n.value, ast.Subscript) and isinstance(n.value.value, ast.Name) and n.value.value.id == syms
                  and isinstance(n.value.slice, ast.Name)]
@@ -1198,7 +1228,7 @@ def rule_compress(repo):
 
 
 def _fin(r):
-    r.require_floor({'R-C16-compress': 13, 'R-C16-header': 24, 'R-C16-textwave': 11}.get(r.rule, 1) if not r.findings else 0)
+    r.require_floor({'R-C16-compress': 16, 'R-C16-header': 31, 'R-C16-textwave': 13}.get(r.rule, 1) if not r.findings else 0)
     return r
 
 
@@ -1397,6 +1427,37 @@ def rule_header(repo):
     okA = len(sets) == 1 and _is_call(_res(sets[0].args[1], sets[0]), attr='make_vcd_func')
     _chk(r, okA, m, 'VcdGenerationPass.__call__', norm(sets[0]) if sets else 'set_metadata(vcd_func, ...)',
          "the function built by make_vcd_func is not what is stored under the vcd_func key (the tick schedules that key)", cm, nontrivial=False)
+    # A'. the enabling test accepts every meaningful value of the option (make_vcd_func's own case split tells which are)
+    if okA:
+        mcall = _res(sets[0].args[1], sets[0])
+        opt = [a for a in mcall.args if isinstance(a, ast.Name) and a.id != _params(cm)[1]]
+        if len(opt) != 1:
+            raise AnalysisError("VcdGenerationPass.__call__: cannot identify the option value handed to make_vcd_func")
+        optn = opt[0].id
+        mkp = _params(mk)[[norm(a) for a in mcall.args].index(optn) + 1]
+        domain = ['some_name']
+        for n in ast.walk(mk):
+            if isinstance(n, ast.Compare) and len(n.ops) == 1 and isinstance(n.ops[0], (ast.Eq, ast.NotEq)) and norm(n.left) == mkp \
+                    and isinstance(n.comparators[0], ast.Constant) and n.comparators[0].value is not None:
+                domain.append(n.comparators[0].value)
+        none_forbidden = any(isinstance(n, ast.Assert) and isinstance(n.test, ast.Compare) and norm(n.test.left) == mkp
+                             and isinstance(n.test.ops[0], ast.IsNot) and norm(n.test.comparators[0]) == 'None' for n in mk.body)
+        gs = [g for g in _cond_guards(stmt_of(sets[0])) if g.kind != 'assert']
+
+        def enabled(val):
+            def leaf(e):
+                if _is_call(e, attr='has_metadata'):
+                    return True
+                return NotImplemented
+            return all(bool(Evaluator({optn: val}, leaf=leaf).ev(g.test)) == g.polarity for g in gs)
+        offs = [d for d in domain if not enabled(d)]
+        r.evaluations += len(domain) + 1
+        _chk(r, not offs, m, 'VcdGenerationPass.__call__', f"dump enabled for option values {domain!r} (guards: {' and '.join(repr(g) for g in gs)})",
+             f"the option value {offs[0]!r} is meaningful (make_vcd_func has a branch for it: the empty name selects <ClassName>.vcd) but the "
+             f"enabling test treats it as `off`: no dump file is written although one was requested" if offs else '', sets[0])
+        if none_forbidden:
+            _chk(r, not enabled(None), m, 'VcdGenerationPass.__call__', "dump disabled for option value None",
+                 "make_vcd_func asserts the name is not None, but the enabling test lets None through", sets[0])
     # B/C. $var line
     rprints = _prints_to(R, v.fvar)
     kinds = {}
@@ -1645,6 +1706,8 @@ def rule_header(repo):
     if shape is not None:
         ot, oi, it_, ii_, key, value, ms = shape
         oo = _index_iter(oi, ot)
+        if oo is not None and _range_gap(oi) is not None:
+            oo = None
         if oo is not None and oo[0] == nets and oo[1] is not None:
             members = [f'{nets}[{oo[1]}]'] + ([oo[2]] if oo[2] else [])
             okN = norm(ii_) in members and norm(it_) == norm(key) and norm(value) == oo[1]
@@ -1697,7 +1760,7 @@ def rule_header(repo):
     _chk(r, okJ, m, q, "$enddefinitions $end after the declarations, before the initial values", "the definition section must be "
          "closed after all $var lines and before the first value", ends[0] if ends else mk)
     pi = _index_iter(il.iter, il.target)
-    okP = pi is not None and pi[0] == nets and pi[1] is not None
+    okP = pi is not None and pi[0] == nets and pi[1] is not None and _range_gap(il.iter) is None
     _chk(r, okP, m, q, f"for {norm(il.target)} in {norm(il.iter)}", "the initial values must be printed for every net (enumerate over the "
          "whole net table): a net without initial value is undefined until its first change", il)
     if okP:
@@ -2289,7 +2352,7 @@ def rule_gen_isolation(repo):
     for f in foreign:
         r.observations.append(f"writes into another function's __globals__ (not judged by this rule): {f}")
     r.ok('pymtl3', '<repo>', f"no function writes into globals() ({n_sites} exec sites judged)", nontrivial=False)
-    r.require_floor(14 if not r.findings else 0)
+    r.require_floor(20 if not r.findings else 0)
     return r
 
 
@@ -2381,7 +2444,7 @@ def rule_registry(repo):
                  f"added or replaced components, spawned slices) get no $var and no text-wave entry", node)
     if n_sig < 3:
         raise AnalysisError(f"R-C16-registry: only {n_sig} post-elaboration signal registrations recognised in Component.py (expected >= 3)")
-    r.require_floor(3 if not r.findings else 0)
+    r.require_floor(4 if not r.findings else 0)
     return r
 
 
@@ -2621,6 +2684,14 @@ MUTANTS = [
     _m('children-by-one-level-walk', VCD, "      for child in m.get_child_components():\n        recurse_models( child, spaces+'  ' )\n",
        "      for name, obj in m.__dict__.items():\n        if name[0] == '_': continue\n        for child in ( obj if isinstance( obj, list ) else [ obj ] ):\n"
        "          if isinstance( child, Component ):\n            recurse_models( child, spaces+'  ' )\n", 'R-C16-header'),
+    _m('table-stops-one-short', VCD, "for i in range(len(trimmed_value_nets))\n                      if i != vcd_clock_net_idx ]",
+       "for i in range(len(trimmed_value_nets)-1)\n                      if i != vcd_clock_net_idx ]", 'R-C16-compress'),
+    _m('table-starts-at-one', VCD, "for i in range(len(trimmed_value_nets))\n                      if i != vcd_clock_net_idx ]",
+       "for i in range(1, len(trimmed_value_nets))\n                      if i != vcd_clock_net_idx ]", 'R-C16-compress'),
+    _m('net-map-stops-one-short', VCD, "    for i in range(len(trimmed_value_nets)):\n      for x in trimmed_value_nets[i]:",
+       "    for i in range(len(trimmed_value_nets)-1):\n      for x in trimmed_value_nets[i]:", 'R-C16-header'),
+    _m('enable-by-truthiness', VCD, "      if vcd_file_name is not None:\n", "      if vcd_file_name:\n", 'R-C16-header'),
+    _m('enable-lets-none-through', VCD, "      if vcd_file_name is not None:\n", "      if True:\n", 'R-C16-header'),
     _m('var-name-keeps-dot', VCD, "repr(signal)[ len(m_name)+1: ]", "repr(signal)[ len(m_name): ]", 'R-C16-header'),
     _m('no-upscope', VCD, '      print( f"{spaces}$upscope $end", file=vcd_file )\n', "", 'R-C16-header'),
     _m('clock-index-off-by-one', VCD, "vcd_clock_net_idx = len(trimmed_value_nets)\n\n      if new_net:",
@@ -2739,6 +2810,10 @@ EQUIV = [
        "        if isinstance( child, list ):\n          todo = list( child ) + todo\n        elif isinstance( child, Component ):\n"
        "          recurse_models( child, spaces+'  ' )\n"),
     _m('debug-port-registered-by-update', COMPONENT, "    top._dsl.all_signals.add( o )\n", "    top._dsl.all_signals |= { o }\n"),
+    _m('table-range-explicit-bounds', VCD, "for i in range(len(trimmed_value_nets))\n                      if i != vcd_clock_net_idx ]",
+       "for i in range(0, len(trimmed_value_nets), 1)\n                      if i != vcd_clock_net_idx ]"),
+    _m('enable-by-not-eq-none', VCD, "      if vcd_file_name is not None:\n", "      if not ( vcd_file_name is None ):\n"),
+    _m('enable-by-or-empty', VCD, "      if vcd_file_name is not None:\n", "      if vcd_file_name or vcd_file_name == \"\":\n"),
     _m('dump-guard-flipped', PREP, "    if top.has_metadata( VcdGenerationPass.vcd_func ):\n      ret.append( top.get_metadata( VcdGenerationPass.vcd_func ) )\n",
        "    if not top.has_metadata( VcdGenerationPass.vcd_func ):\n      pass\n    else:\n      ret.append( top.get_metadata( VcdGenerationPass.vcd_func ) )\n"),
     _m('vcd-str-conditional-expression', BITS,
